@@ -115,6 +115,7 @@ def check(F, rep, tier):
         rep.undecided("R10.1", "unrecognised-shape:SemVer::cmp", str(e), f.where())
     # ---- R10.2 identifier comparison ---------------------------------------------------------
     g = ord_impl(F, IDENT)
+    numtext_pred = [None]
     if rep.anchor("R10.2", "<PreReleaseIdentifier as Ord>::cmp", g):
         rep.fn_seen(g)
         try:
@@ -125,13 +126,38 @@ def check(F, rep, tier):
                 if s == "UInt" and o == "UInt": return a[ku]
                 if s == "Str" and o == "Str": return a[ks]
                 return "Less" if s == "UInt" else "Greater"
-            evals += check_stages(rep, "R10.2", ci, [("identifier", {"self": ("Str", "UInt"), "other": ("Str", "UInt"), ku: ORD, ks: ORD}, spec)], "PreReleaseIdentifier::cmp") or 0
+            plain = [("identifier", {"self": ("Str", "UInt"), "other": ("Str", "UInt"), ku: ORD, ks: ORD}, spec)]
+            # Text identifiers: the parser keeps a numeric identifier beyond u64 as text (R10.7).  Where the comparator asks a boolean
+            # question P about each text operand, the reference is the R11.3 one: P-texts are numbers (by (length, digits) = by value,
+            # below every other text), the rest compare byte-wise.  P itself is examined by R10.7.
+            import re as _re
+            try: d0, _n0 = cmpterm.compare_whole(ci, plain)
+            except cmpterm.Unrecognised: d0 = []
+            m_ = _re.search(r"the code consults (\w+)\((self|other)#Str\.0\)", " ".join(d0))
+            numtext_pred[0] = m_.group(1) if m_ else None
+            if m_:
+                kns, kno = "%s(self#Str.0)" % m_.group(1), "%s(other#Str.0)" % m_.group(1)
+                klen = "Ord<usize>::cmp(len(self#Str.0),len(other#Str.0))"; kdig = "Ord<str>::cmp(self#Str.0,other#Str.0)"
+                def spec2(a):
+                    s_, o_ = a["self"], a["other"]
+                    if s_ == "UInt" and o_ == "UInt": return a[ku]
+                    if s_ == "Str" and o_ == "Str":
+                        ns, no = a[kns] == "true", a[kno] == "true"
+                        if ns and no: return a[klen] if a[klen] != "Equal" else a[kdig]
+                        if ns != no: return "Less" if ns else "Greater"
+                        return a[kdig]
+                    return "Less" if s_ == "UInt" else "Greater"
+                evals += check_stages(rep, "R10.2", ci, [("identifier", {"self": ("Str", "UInt"), "other": ("Str", "UInt"), ku: ORD, kns: ("false", "true"), kno: ("false", "true"), klen: ORD, kdig: ORD}, spec2)], "PreReleaseIdentifier::cmp") or 0
+            else:
+                evals += check_stages(rep, "R10.2", ci, plain, "PreReleaseIdentifier::cmp") or 0
             # the string atom must be plain byte-wise String/str comparison (ASCII order), not a folded one
             for k, callee in ci.atoms.items():
-                if "Str" in k and not ("impl std::cmp::Ord for std::string::String" in callee or "Ord for str" in callee or "<std::string::String as std::cmp::Ord>" in callee):
+                if "Str" in k and not k.startswith("Ord<usize>") and not ("impl std::cmp::Ord for std::string::String" in callee or "Ord for str" in callee or "<std::string::String as std::cmp::Ord>" in callee):
                     rep.bad("R10.2", "string-order", "alphanumeric identifiers are compared with %s instead of byte-wise String order" % callee, g.where())
         except cmpterm.Unrecognised as e:
             rep.undecided("R10.2", "unrecognised-shape:PreReleaseIdentifier::cmp", str(e), g.where())
+    # ---- R10.7 numeric identifiers compare by value whatever their size ---------------------------------------------------------
+    if g is not None: big_numeric_rule(F, rep, g, numtext_pred[0])
     # ---- R10.3 build metadata is never read -------------------------------------------------------
     cg = mir.CallGraph(F)
     roots = [x.path for x in (f, ord_impl(F, SEMVER, "eq", "std::cmp::PartialEq"), ord_impl(F, SEMVER, "partial_cmp", "std::cmp::PartialOrd")) if x is not None]
@@ -171,6 +197,50 @@ def check(F, rep, tier):
     core.borrow(F, rep, "c08", "C08", "R10.6", ("R08.4:const-fallback", "R08.4:discarded-error"), "a number too large for u64 is rejected by the parser, not replaced by another number (distinct versions would compare equal)")
     rep.extra["abstract_assignments_evaluated"] = evals
     return core.finish(rep, explanation=EXPL, assumptions=ASSUME, trusted=TRUST)
+
+def big_numeric_rule(F, rep, g, pred_name):
+    """R10.7: PreReleaseIdentifier::UInt holds a u64.  Where the parser keeps a longer digit run as text (Str) the comparator must still
+    treat it as a number: by value among its kind, above every UInt, below every alphanumeric identifier.  A plain text comparison
+    orders 1.0.0-100000000000000000000 below 1.0.0-99999999999999999999 and 1.0.0-99999999999999999999 above 1.0.0--x."""
+    import parsers as _ps
+    rule = "R10.7"
+    producers = []
+    for p_, g_ in F.fns.items():
+        if not p_.startswith("crate::version::semver::parser::"): continue
+        sites = [bi for bi, t in g_.calls() if any(a[0] == "c" and a[1].get("k") == "fn" and str(a[1].get("path")).endswith("PreReleaseIdentifier::Str") for a in t[2])]
+        sites += [bi for bi, si, st in g_.stmts() if st[0] == "=" and st[2][0] == "agg" and isinstance(st[2][1], dict) and st[2][1].get("k") == "adt" and (st[2][1].get("adt") or "").endswith("PreReleaseIdentifier") and st[2][1].get("variant") == "Str"]
+        for bi in sorted(set(sites)):
+            g2, b2 = g_, bi
+            for _ in range(4):
+                try: paths = [pp for pp in mir.enum_paths(g2, limit=5000, stop_blocks=[b2]) if pp[-1] == b2]
+                except mir.TooManyPaths: break
+                if any(any(m == "all" and tr and pr == "is_ascii_digit" for m, c_, tr, pr in f_) for pp in paths for f_ in _ps.path_facts(F, g2, pp)):
+                    producers.append("%s bb%d line %s" % (g_.where(), bi, g_.blocks[bi]["line"])); break
+                par = F.fn(g2.parent) if g2.kind == "closure" and g2.parent else None
+                if par is None: break
+                made = [b3 for b3, s3, st in par.stmts() if st[0] == "=" and st[2][0] == "agg" and isinstance(st[2][1], dict) and st[2][1].get("k") == "closure" and st[2][1]["path"] == g2.path]
+                if not made: break
+                g2, b2 = par, made[0]
+    if not producers:
+        rep.ok(rule, "the SemVer parser never stores an all-digit pre-release identifier as text", nontrivial_key="bignum-none"); return
+    if pred_name is None:
+        rep.bad(rule, "big-numeric-identifier-as-text", "the parser keeps an all-digit pre-release identifier that does not fit u64 as text (%s) and <PreReleaseIdentifier as Ord>::cmp compares text identifiers as plain strings: 1.0.0-100000000000000000000 orders below 1.0.0-99999999999999999999, and 1.0.0-99999999999999999999 above 1.0.0--x (numeric identifiers compare by value and below alphanumeric ones)" % producers[0], g.where())
+        return
+    cgl = mir.CallGraph(F)
+    cands = [F.fn(p_) for p_ in cgl.closure([g.path], generic=False) if F.fn(p_) is not None and p_.rsplit("::", 1)[-1] == pred_name]
+    if not cands:
+        rep.undecided(rule, "numeric-text-test", "the comparator's test %s for a numeric text identifier was not found" % pred_name, g.where()); return
+    h = cands[0]; rep.fn_seen(h)
+    scope = [h] + F.children(h.path)
+    preds = [_ps.closure_pred_name(F, x, t[2][1]) for x in scope for bi, t in x.calls() if (mir.callee(t) or "").endswith("::all") and len(t[2]) > 1]
+    anyp = [1 for x in scope for bi, t in x.calls() if (mir.callee(t) or "").endswith("::any")]
+    other = sorted({(mir.callee(t) or "?").rsplit("::", 1)[-1] for x in scope for bi, t in x.calls()} - {"all", "bytes", "chars", "len", "is_empty", "starts_with", "eq", "ne", "gt", "ge", "lt", "le", "cmp", "partial_cmp", "as_bytes", "deref", "is_ascii_digit", "into_iter", "iter"})
+    if preds != ["is_ascii_digit"] or anyp:
+        rep.bad(rule, "numeric-text-test:" + pred_name, "the comparator's test for a numeric text identifier does not require `all ASCII digits` (all-predicates %s, any-predicates %d): alphanumeric identifiers would be ordered as numbers" % (preds, len(anyp)), h.where())
+    elif other:
+        rep.undecided(rule, "numeric-text-test:" + pred_name, "the test also calls %s, whose effect is not evaluated" % other, h.where())
+    else:
+        rep.ok(rule, "%s requires all ASCII digits (further conjuncts: length / magnitude against u64::MAX, no leading zero); digit runs kept as text (%d site(s)) meet a comparator that orders them as numbers (table: R10.2)" % (pred_name, len(producers)), nontrivial_key="bignum")
 
 def adapt_delegate(c, specs):
     """if the (Some,Some) arm delegates to <[T] as Ord>::cmp / Vec::cmp instead of the local helper, use that atom key"""
